@@ -38,7 +38,7 @@ type C15Op struct {
 	Payload int `json:"payload"` // payload variant
 }
 
-var c15Names = []string{"chain-bravo", "chain-zulu01", "chain-yank02", "x"} // existing client, two new names, invalid identifier
+var c15Names = []string{world.ChainNames[1], "chain-zulu01", "chain-yank02", "x"} // existing client, two new names, invalid identifier
 
 func genC15(t *rapid.T) C15Case {
 	n := rapid.IntRange(1, 5).Draw(t, "n")
@@ -47,7 +47,7 @@ func genC15(t *rapid.T) C15Case {
 		base := C15Op{
 			Msg:     rapid.IntRange(0, 4).Draw(t, "msg"),
 			Name:    rapid.SampledFrom([]int{0, 1, 0, 1, 2, 3}).Draw(t, "name"),
-			Payload: rapid.SampledFrom([]int{0, 0, 1, 2, 3}).Draw(t, "payload"),
+			Payload: rapid.SampledFrom([]int{0, 0, 1, 2, 3, 4}).Draw(t, "payload"),
 		}
 		// the same request from several signer classes, unprivileged ones first
 		signers := rapid.Permutation([]int{1, 2, 3, 4}).Draw(t, "signers")
@@ -68,7 +68,7 @@ func genC15(t *rapid.T) C15Case {
 
 func checkC15(c C15Case, col *Collector) outcome {
 	w := world.New(world.Config{N: 2})
-	a, b := w.Chains["chain-alpha"], w.Chains["chain-bravo"]
+	a, b := w.Chains[world.ChainNames[0]], w.Chains[world.ChainNames[1]]
 	authority := authtypes.NewModuleAddress(govtypes.ModuleName).String()
 	k := a.App.TIBCKeeper
 	v := func(sig, format string, args ...any) outcome {
@@ -77,6 +77,9 @@ func checkC15(c C15Case, col *Collector) outcome {
 	// the outsider account is a relayer, but only for a chain other than the ones used below
 	{
 		ctx, write := a.Branch()
+		// (names that extend and that shorten the name of the client they must not touch)
+		k.ClientKeeper.RegisterRelayers(ctx, b.Name+"2", []string{a.Accounts[world.OutsiderIdx].Addr.String()})
+		k.ClientKeeper.RegisterRelayers(ctx, b.Name[:len(b.Name)-1], []string{a.Accounts[world.OutsiderIdx].Addr.String()})
 		k.ClientKeeper.RegisterRelayers(ctx, "chain-other01", []string{a.Accounts[world.OutsiderIdx].Addr.String()})
 		// the genesis relayer stays registered for chain-bravo only among the names used here
 		k.ClientKeeper.RegisterRelayers(ctx, "chain-zulu01", []string{})
@@ -182,9 +185,9 @@ func checkC15(c C15Case, col *Collector) outcome {
 			payloadValid = mod(op.Payload, 4) <= 1 && name != "x"
 			desc = fmt.Sprintf("register relayers %v for %s", list, name)
 		case 3: // rules
-			rules := [][]string{{"*,*,*"}, {"chain-alpha,chain-bravo,NFT", "a+b,*,x"}, {"bad rule"}, {"a,b"}}[mod(op.Payload, 4)]
+			rules := [][]string{{"*,*,*"}, {"chain-alpha,chain-bravo,NFT", "a+b,*,x"}, {"bad rule"}, {"a,b"}, {}}[mod(op.Payload, 5)]
 			msg = &routingtypes.MsgSetRoutingRules{Title: "t", Description: "d", Rules: rules, Authority: authField}
-			payloadValid = mod(op.Payload, 4) <= 1
+			payloadValid = mod(op.Payload, 5) <= 1 || mod(op.Payload, 5) == 4 // an empty list is a valid replacement
 			desc = fmt.Sprintf("set rules %v", rules)
 		default: // update client of chain-bravo with a valid header
 			if signer == 0 || signer == 4 {
@@ -213,7 +216,7 @@ func checkC15(c C15Case, col *Collector) outcome {
 		} else {
 			wantEffect = signer == 0 && payloadValid
 		}
-		key := fmt.Sprintf("%d/%d/%d", mod(op.Msg, 5), mod(op.Name, len(c15Names)), mod(op.Payload, 4))
+		key := fmt.Sprintf("%d/%d/%d", mod(op.Msg, 5), mod(op.Name, len(c15Names)), mod(op.Payload, 5))
 		if seenSigners[key] == nil {
 			seenSigners[key] = map[int]bool{}
 			outcomes[key] = map[bool]bool{}
@@ -338,6 +341,6 @@ func trimStr(s string, n int) string {
 
 func TestC15(t *testing.T) {
 	runProp(t, "C15",
-		"case = 2-10 privileged operations on one chain of a two-chain world: MsgCreateClient (new name / existing client / invalid identifier; valid Tendermint client, mismatching consensus-state type, invalid client state), MsgUpgradeClient (existing / unknown client; same type or BSC client state for a Tendermint client), MsgRegisterRelayer (valid lists, invalid address, empty list), MsgSetRoutingRules (valid / malformed rules), MsgUpdateClient with a genuinely valid header; signer = the governance authority (dispatched through the msg service router, as x/gov does), the relayer registered for that chain, an account registered as relayer for another chain only, a plain account, or a plain account signing a message that names the authority; oracle = the request takes effect (visible through the keeper getters: client state and type, relayer list, rule list, latest height) iff the signer is the authority (the registered relayer for updates) and the payload is valid; a refused request leaves the tibc store byte-identical and the stored client untouched; create never succeeds on an existing name; upgrade never changes the client type; non-trivial = the same (message, name, payload) submitted by >=2 signer classes with different expected outcomes",
+		"case = 2-10 privileged operations on one chain of a two-chain world: MsgCreateClient (new name / existing client / invalid identifier; valid Tendermint client, mismatching consensus-state type, invalid client state), MsgUpgradeClient (existing / unknown client; same type or BSC client state for a Tendermint client), MsgRegisterRelayer (valid lists, invalid address, empty list), MsgSetRoutingRules (valid / malformed rules / the empty list), MsgUpdateClient with a genuinely valid header; signer = the governance authority (dispatched through the msg service router, as x/gov does), the relayer registered for that chain, an account registered as relayer for another chain only, a plain account, or a plain account signing a message that names the authority; oracle = the request takes effect (visible through the keeper getters: client state and type, relayer list, rule list, latest height) iff the signer is the authority (the registered relayer for updates) and the payload is valid; a refused request leaves the tibc store byte-identical and the stored client untouched; create never succeeds on an existing name; upgrade never changes the client type; non-trivial = the same (message, name, payload) submitted by >=2 signer classes with different expected outcomes",
 		genC15, checkC15)
 }
